@@ -293,6 +293,10 @@ func execOp(op string) vlib.Res {
 		return execL3Deadline(a)
 	case "l3trunc":
 		return execL3Trunc(a)
+	case "l3v6":
+		return execL3V6(a)
+	case "nss6":
+		return execNss6(a)
 	}
 	if fc == nil {
 		return vlib.Res{Impl: "nocache"}
@@ -763,6 +767,9 @@ func buildResponse(k cache.FailureQuestionKey, class string) *dns.Msg {
 		}
 	case "nxdomain":
 		res.Rcode = dns.RcodeNameError
+	case "nodata": // NOERROR, no answer, SOA in the authority section (the normal DS answer of an insecure delegation)
+		res.Rcode = dns.RcodeSuccess
+		res.Ns = []dns.RR{&dns.SOA{Hdr: dns.RR_Header{Name: k.Question.Name, Rrtype: dns.TypeSOA, Class: k.Question.Qclass, Ttl: 60}, Ns: "ns.invalid.", Mbox: "h.invalid.", Serial: 1, Refresh: 60, Retry: 60, Expire: 60, Minttl: 60}}
 	case "servfail":
 		res.Rcode = dns.RcodeServerFailure
 	case "refused":
@@ -798,10 +805,15 @@ func execSet(a []string) vlib.Res {
 	scoped := k.Scope.IsValid() && k.Scope.Bits() != 0
 	if enabled && !scoped {
 		switch class {
-		case "useful", "nxdomain":
+		case "useful", "nxdomain", "nodata":
 			ref.resetQ(global)
 			if h, ok := fc.Lookup(global); ok && h.Kind == cache.FailureKindQuestion {
 				or = "FAIL sig=store/sset/useful-answer-left-question-suppressed"
+			}
+			// this route (resolver-private DS/DNSKEY sub-queries) never passes the client
+			// writer: the Store's own reset is all there is. No history may survive.
+			if _, _, left := preState(refQ(global), cache.VerifC13QuestionHash(global)); left {
+				or = "FAIL sig=store/sset/useful-answer-left-question-history class=" + class
 			}
 		case "servfail", "refused":
 			if h, ok := fc.Lookup(global); ok && h.Kind == cache.FailureKindQuestion {
